@@ -71,6 +71,14 @@ class ManagerStub(object):
         self.calls.append(("group_encrypt", groupid, data))
         return b"ENVELOPE-GROUP"
 
+    def group_create_skmsg(self, groupid):
+        self.calls.append(("group_create_skmsg", groupid))
+
+        class SK(object):
+            def serialize(self_inner):
+                return b"SENDER-KEY-DISTRIBUTION"
+        return SK()
+
     def load_senderkey(self, groupid):
         class R(object):
             def isEmpty(self_inner):
